@@ -104,7 +104,7 @@ def gen_s(rng, names):
             k = rng.randrange(1, 4)
             ops.append({"op": "verify_seq", "certs": [rng.choice(names) for _ in range(k)]})
         else:
-            ops.append({"op": "message", "signer": rng.choice(("g0", "g1", "a0", "a_claim")), "form": rng.choice(("certificate", "digest")), "psid": rng.choice((36, 37, 638)),
+            ops.append({"op": "message", "signer": rng.choice(("g0", "g1", "a0", "a_claim", "a_aa")), "form": rng.choice(("certificate", "digest")), "psid": rng.choice((36, 37, 638)),
                         # certificates / certificate requests carried in the SIGNED header (peer-to-peer certificate distribution)
                         "carries": rng.choice((None, None, "a_root", "a_aa", "a_at", "a_aa_claims_g_root", "g_aa", "self_signed_at", "p2pcd_request"))})
     return {"part": "S", "ops": ops, "with_aa": rng.random() < 0.5, "with_sign_service": rng.random() < 0.6}
@@ -155,6 +155,9 @@ def run_s_case(c, W, res):
                 elif op["signer"] == "a0":
                     own, be = A.ats[0], A.backend
                     res.count("S.hostile_offers")
+                elif op["signer"] == "a_aa":
+                    own, be = A.aa, A.backend          # the attacker's AA signs itself: its issuer (the attacker's root) becomes 'unknown, wanted'
+                    res.count("S.hostile_offers")
                 else:
                     from flexstack.security.certificate import OwnCertificate
                     kind, cert = pool["a_at_claims_g_aa"]
@@ -170,7 +173,7 @@ def run_s_case(c, W, res):
                         res.count("S.hostile_offers")
                 msg = craft_signed(own, be, op["psid"], b"data", now_us, op["form"], extra=extra or None)
                 conf = vs.verify(SNVERIFYRequest(sec_header=b"", sec_header_length=0, message=msg, message_length=len(msg)))
-                if op["signer"] in ("a0", "a_claim") and conf.report.value == 0:
+                if op["signer"] in ("a0", "a_claim", "a_aa") and conf.report.value == 0:
                     res.violation(f"C09:message-of-hostile-signer-accepted[{op['signer']}]", f"{op}", ctx)
         except Exception as e:  # noqa
             res.count("S.op_exceptions")
